@@ -37,6 +37,14 @@ pub struct Def {
     pub loc: Option<Location>,
     /// a text that matches `re`
     pub instance: String,
+    /// compiled with `RegexBuilder::case_insensitive(true)` (a flag the pattern text does not show)
+    pub ci: bool,
+}
+
+impl Def {
+    pub fn compile(&self) -> Result<Regex, regex::Error> {
+        regex::RegexBuilder::new(&self.re).case_insensitive(self.ci).build()
+    }
 }
 
 const KW: [&str; 3] = ["Given", "When", "Then"];
@@ -100,9 +108,21 @@ pub fn gen_def(t: &mut Tape) -> Def {
     }
     if anchored {
         re = format!("^{re}$");
+        // top-level alternation of two anchored branches: the text may match through either
+        if t.chance(1, 6) {
+            let (b, ib) = gen_atom(t, 0);
+            re = format!("{re}|^alt {b}$");
+            if t.chance(1, 2) {
+                inst = format!("alt {ib}");
+            }
+        }
+    }
+    let ci = t.chance(1, 8);
+    if ci && t.chance(1, 2) {
+        inst = inst.to_uppercase();
     }
     let loc = t.chance(1, 2).then(|| Location { path: PATHS[t.pick(PATHS.len())], line: t.range(1, 5) as u32, column: t.range(1, 3) as u32 });
-    Def { ty: t.pick(3), re, loc, instance: inst }
+    Def { ty: t.pick(3), re, loc, instance: inst, ci }
 }
 
 pub struct C17Case {
@@ -122,12 +142,13 @@ pub fn gen_case(t: &mut Tape) -> C17Case {
         if !defs.is_empty() && t.chance(1, 4) {
             let src = &defs[t.pick(defs.len())];
             d.re = src.re.clone();
+            d.ci = src.ci;
             d.instance = src.instance.clone();
             if t.chance(1, 2) {
                 d.ty = src.ty;
             }
         }
-        if Regex::new(&d.re).is_err() {
+        if d.compile().is_err() {
             continue;
         }
         // R9: pairwise distinct (keyword, regex, location)
@@ -168,7 +189,7 @@ fn build(defs: &[Def], order: &[usize]) -> Collection<W> {
     let mut c = Collection::<W>::new();
     for i in order {
         let d = &defs[*i];
-        let re = Regex::new(&d.re).unwrap();
+        let re = d.compile().unwrap();
         c = match d.ty {
             0 => c.given(d.loc, re, FNS[*i]),
             1 => c.when(d.loc, re, FNS[*i]),
@@ -238,7 +259,7 @@ pub fn check(case: &C17Case) -> C17Out {
     let c2 = build(&case.defs, &case.order2);
     // a runner (and `Cucumber`) can be cloned: the copy must match exactly like the original
     let c3 = c1.clone();
-    let res: Vec<Regex> = case.defs.iter().map(|d| Regex::new(&d.re).unwrap()).collect();
+    let res: Vec<Regex> = case.defs.iter().map(|d| d.compile().unwrap()).collect();
     let mut viol = vec![];
     let mut nontrivial = false;
     let mut labels = vec![];
